@@ -40,6 +40,15 @@ class Session:
         self.w = World(backend, config=config, storage_options=so, max_limit=max_limit, message_timeout=1e300, _session=True)
         self.with_subscriber = subscriber
         self._raw = None
+        if backend == "sql":
+            # production pools several connections (and hands them out round-robin): open two of them so that successive
+            # operations of a sequential session really alternate between connections
+            import asyncio
+
+            async def two():
+                await asyncio.gather(self.w.storage.get_event("00" * 32), self.w.storage.get_event("11" * 32))
+
+            self.w.call(two(), self.HORIZON)
         self._open_conns()
 
     def _open_conns(self):
